@@ -8,6 +8,12 @@ package storage
 // wait returns only after the ready channel has been closed. SetGlobal closes
 // it inside the critical section in which it stores a non-nil handle, and
 // never stores nil afterwards (module invariant: ready closed => storage != nil).
+//@ guarded global:storage by global.mu
+
+//@ func IsReady
+//@   requires lock_free_on_entry: !held(mu) && !rheld(mu)
+//@   lockcheck
+//@   modifies global:storage
 //@ func wait
 //@   trusted
 //@   modifies global:storage
@@ -15,11 +21,15 @@ package storage
 
 // A caller that asks for the handle before it has been set receives it once it is set.
 //@ func GetGlobal
+//@   requires lock_free_on_entry: !held(mu) && !rheld(mu)
 //@   nopanic
+//@   lockcheck
 //@   modifies global:storage
 //@   ensures returns_handle: r0 != nil
 
 // SetGlobal never stores nil (establishes the module invariant).
 //@ func SetGlobal
+//@   requires lock_free_on_entry: !held(mu) && !rheld(mu)
+//@   lockcheck
 //@   modifies global:storage
 //@   ensures stores_handle: storage != nil
